@@ -1,5 +1,6 @@
 (* C18 — optional fields vanish quietly; required ones fail loudly and by name. *)
 From Connectome Require Import Values NameSet NameLevel NameFacts.
+From Connectome Require BagGen OptGen.
 Local Open Scope list_scope.
 
 (* the state of a field after compilation: available iff it reaches no missing input; dropped quietly iff it misses some
@@ -47,3 +48,19 @@ Example C18_example :
   bag_outcome (stack_bag [first; mk [("x", ("fx", ["_p"])); ("y", ("fy", ["a"]))] ["x"]]) = DepError "x" ["c"].
 Proof. vm_compute. auto. Qed.
 Print Assumptions C18_example.
+
+(* The name-level model (Model/NameLevel.v) mirrors connect_bags / normalize_bag (containers/base.py), detect_optionals (containers/reversible.py) and GraphCompiler._validate_optionals / compile (engine/compiler.py) and is compared with real layer stacks.
+   The fingerprints (sha256 of the normalised body) are regenerated on every run; an edit of one of these functions re-opens this property
+   even if no sampled case shows a difference. *)
+Theorem C18_mirrored_functions_are_the_pinned_ones :
+  BagGen.shape_connect_bags = "330bc8a991173b73" /\
+  BagGen.shape_normalize_bag = "7cd93bd3cd2ed163" /\
+  BagGen.shape_EdgesBag_freeze = "6e09dc87af0979b4" /\
+  BagGen.shape_EdgesBag_init = "19042133648c6d76" /\
+  OptGen.shape_detect_optionals = "baf33a5e717b4311" /\
+  OptGen.shape_ReversibleContainer_init = "ba8f9a40e072da46" /\
+  OptGen.shape_GraphCompiler_priv_validate_optionals = "1241e86a2e7f8c0d" /\
+  OptGen.shape_GraphCompiler_compile = "2efea2ce0a0eabd1" /\
+  OptGen.shape_GraphCompiler_priv_compile = "6acf060d491e1349".
+Proof. repeat split; reflexivity. Qed.
+Print Assumptions C18_mirrored_functions_are_the_pinned_ones.
